@@ -44,12 +44,14 @@ class MemFile:
 
 class TextScenario(Scenario):
     close_intervals = 3.0
+    free_events = ("start", "stop")
 
     def __init__(self, **p):
         super().__init__(**p)
         self.horizon = p.get("horizon", 3.0)
         self.written = ""
         self.next_chunk = 0
+        self.lifecycle_calls = 0
         self.tmpdir = None
 
     def site(self):
@@ -91,9 +93,28 @@ class TextScenario(Scenario):
                 shutil.rmtree(self.tmpdir, ignore_errors=True)
 
     def extra_events(self):
+        evs = []
         if self.next_chunk < len(self.chunks):
-            return [("write", self._write)]
-        return []
+            evs.append(("write", self._write))
+        if self.lifecycle_calls < self.params.get("lifecycle", 0):
+            # redundant start() / stop() + start() around writes and polls must not change what is read
+            evs.append(("start", self._start))
+            evs.append(("stop", self._stop))
+        return evs
+
+    def _start(self):
+        self.lifecycle_calls += 1
+        self.log.append(("start", "src", self.loop.time(), None))
+        self.source.start()
+
+    def _stop(self):
+        self.lifecycle_calls += 1
+        self.log.append(("stop", "src", self.loop.time(), None))
+        self.source.stop()
+
+    def closing_hook(self):
+        if self.source.stopped:
+            self.source.start()
 
     def closing_events(self):
         if self.next_chunk < len(self.chunks):
@@ -291,11 +312,12 @@ def texts(delim, max_records, thorough):
 
 def factory(key):
     if key[0] == "text":
-        _, delim, chunks, from_end, pre, real, maxticks = key
+        _, delim, chunks, from_end, pre, real, maxticks = key[:7]
+        lifecycle = key[7] if len(key) > 7 else 0
         if real:     # byte-level chunks travel as latin-1 text in the (JSON-able) key
             chunks = tuple(c.encode("latin-1") for c in chunks)
         return lambda: TextScenario(delim=delim, chunks=chunks, from_end=from_end, pre=pre, real=real,
-                                    horizon=maxticks * POLL)
+                                    horizon=maxticks * POLL, lifecycle=lifecycle)
     _, pre, create, orders, kind = key
     return lambda: DirScenario(pre=pre, create=create, orders=orders, kind=kind, horizon=2.0)
 
@@ -320,6 +342,14 @@ def plan(ctx):
                 if len(chunks) <= 2:
                     jobs.append((("text", delim, chunks, True, "x" + delim, False, 2), 0))
                     jobs.append((("text", delim, chunks, False, "x" + delim + "y", False, 2), 0))
+    # start()/stop() calls around writes and polls (from_end on and off)
+    for delim in ("\n", "ab"):
+        for chunks in ((("x" + delim), ("y" + delim)), (("x",), (delim + "y" + delim)), (("x" + delim + "y"), (delim,))):
+            chunks = tuple(c if isinstance(c, str) else c[0] for c in chunks)
+            for fe, pre in ((True, "p" + delim), (False, ""), (True, "")):
+                jobs.append((("text", delim, chunks, fe, pre, False, 2, 2), 0))
+                if T:
+                    jobs.append((("text", delim, chunks, fe, pre, False, 2, 3), 0))
     if True:
         # real temporary file, byte-level chunks with a two-byte UTF-8 character
         for delim in ("\n", "ab") if T else ("\n",):
